@@ -570,6 +570,8 @@ def cases(tier):
     cs.append(train_case(("pinn", "iter"), "sgd", 0.5, 3, hidden=1, epoch_len=2))
     # a Parameter that reaches the Solver through a ParameterCondition only
     cs.append(train_case(("param",), "sgd", 0.5, 2, hidden=1))
+    # optimizer arguments AND a scheduler in one OptimizerSetting
+    cs.append(train_case(("pinn", "mean"), "sgd_m", 0.5, 2, sched="steplr", hidden=1))
     cs.append(train_case(("param", "mean"), "sgd_m", 0.5, 2, hidden=1))
     if th:
         P3 = ("pinn", "mean", "adaptive")
